@@ -32,6 +32,7 @@ LITS = ["a", "b", "c", "1", "-", "\\+", "\\*", "\\.", "\\(", "\\)", "\\?", "\\|"
 
 
 RANGE_ENDS = [chr(c) for c in range(0x21, 0x7f) if chr(c) not in "\\^-"]
+RANGE_CTRL = ["\t", "\n", "\x0b", "\x0c", "\r"]      # printable too: a range may start at a control character (KF-C07-2)
 
 
 def set_escape(ch):
@@ -138,6 +139,10 @@ def gen_ast(rng, depth):
                 items.append(["s", rng.choice("dsw")])
             else:
                 lo, hi = sorted(rng.sample(RANGE_ENDS, 2))
+                if rng.random() < 0.06:
+                    lo = rng.choice(RANGE_CTRL)
+                    if rng.random() < 0.3:
+                        hi = rng.choice([c for c in RANGE_CTRL if c >= lo])
                 items.append(["r", lo, hi])
         return ["set", rng.random() < 0.25, items]
     k = rng.random()
@@ -215,12 +220,32 @@ def generate(rng, tier):
             yield {"pattern": render_ast(t), "ast": t, "ops": ast_ops(t), "sseed": rng.randrange(1 << 30)}
 
 
+def known_scopes(p):
+    """scope predicates of the recorded findings KF-C07-2 / KF-C07-3, computed from the pattern text alone"""
+    import string
+    out = []
+    for m in re.finditer(r"\[\^?((?:\\.|[^\]\\])*)\]", p):
+        body = m.group(1)
+        # a range inside the set one of whose endpoints is a control character (raw, or written \t \n \r \f \v)
+        if re.search(r"(?:[\x00-\x1f]|\\[tnrfv])-.|.-(?:[\x00-\x1f]|\\[tnrfv])", body, re.S):
+            out.append("control_range")
+        if m.group(0).startswith("[^"):
+            try:
+                sre = re.compile(m.group(0))
+                if not any(sre.fullmatch(c) for c in string.printable):
+                    out.append("empty_negated_set")
+            except re.error:
+                pass
+    return sorted(set(out))
+
+
 def run_case(case, drv):
     import random
     res = CaseResult()
     p = case["pattern"]
     res.nontrivial = case["ops"] >= 2
     scope = ["shortcut_in_set"] if re.search(r"\[(?:\\.|[^\]\\])*\\[dsw]", p) else []
+    scope += known_scopes(p)
     try:
         cre = re.compile(p)
         valid = True
